@@ -27,6 +27,15 @@ var Root = func() string {
 	return "/verif"
 }()
 
+// Out is where evidence/ and replays/ are written (VERIF_OUT overrides it for
+// trial runs against seeded changes, so that registered evidence is not touched).
+var Out = func() string {
+	if r := os.Getenv("VERIF_OUT"); r != "" {
+		return r
+	}
+	return Root
+}()
+
 // Finding is one line of known_findings.jsonl.
 type Finding struct {
 	Property string `json:"property"`
@@ -121,7 +130,7 @@ func (c *Check) Violation(sig, what string, replay any) {
 		}
 	}
 	h := sha1.Sum([]byte(sig))
-	dir := filepath.Join(Root, "replays")
+	dir := filepath.Join(Out, "replays")
 	os.MkdirAll(dir, 0o755)
 	path := filepath.Join(dir, fmt.Sprintf("%s-%s.json", c.ID, hex.EncodeToString(h[:6])))
 	b, _ := json.MarshalIndent(map[string]any{"property": c.ID, "signature": sig, "what": what, "replay": replay, "tier": c.Tier}, "", " ")
@@ -297,8 +306,8 @@ func (c *Check) Finish() int {
 		ev["assumptions"] = []string{}
 	}
 	b, _ := json.MarshalIndent(ev, "", " ")
-	os.MkdirAll(filepath.Join(Root, "evidence"), 0o755)
-	if err := os.WriteFile(filepath.Join(Root, "evidence", c.ID+".json"), b, 0o644); err != nil {
+	os.MkdirAll(filepath.Join(Out, "evidence"), 0o755)
+	if err := os.WriteFile(filepath.Join(Out, "evidence", c.ID+".json"), b, 0o644); err != nil {
 		fmt.Printf("INTERNAL-ERROR property=%s cannot write evidence: %v\n", c.ID, err)
 		return 2
 	}
